@@ -225,10 +225,19 @@ def run(ctx):
             calls.append((b, np.full(m, e)))
         order = script_rng.permutation(len(calls))
         calls = [calls[i] for i in order[: len(calls) // 2]] + calls[len(calls) // 2 :]
+        # the last few calls have the same batch shape and different events: a result the caller still
+        # holds must not change when the object is called again (seeded C05-16: work array kept on the object)
+        for _ in range(4):
+            calls.append((script_rng.uniform(0, bmax, 64), script_rng.uniform(6, 12, 64)))
         hist_obj = make_taus(version)
+        held = None
         for step, (b, le) in enumerate(calls):
             b0, le0 = b.copy(), le.copy()
             r_hist = call(b, le, hist_obj)
+            if held is not None and np.asarray(held[0]).tobytes() != held[1]:
+                ctx.violation("history", f"table v{version}: the result returned by call #{step - 1} changed when the object was called again (call #{step}): the caller's array is the object's work buffer", {"version": version, "step": step})
+                break
+            held = (r_hist, np.asarray(r_hist).tobytes())
             r_fresh = call(b, le, make_taus(version))
             ctx.count("history")
             if r_hist.tobytes() != r_fresh.tobytes():
